@@ -35,7 +35,7 @@ def params(name):
     else:                                   # MapKeyValuePair<Key, uint32_t>
         ial = max(AL, 4); isz = (SZ + 4 + ial - 1) // ial * ial
     p = {'name': name, 'tagged': cont == 'M' or SZ >= 8, 'kmax': 2 ** (8 * min(4, SZ)), 'failinj': tr == 'q' and kind != 'ON',
-         'map': cont == 'M'}
+         'map': cont == 'M', 'nomem': kind[0] in 'ON'}
     m = re.match(r'([A-Z]+)(\d*)$', kind); fam, N = m.group(1), int(m.group(2) or 0)
     if fam == 'L':
         part1 = part and isz >= 4
@@ -83,6 +83,7 @@ def calc_capacity(p, log):
 def min_log_start(p):
     l = 0
     while calc_capacity(p, l) < 1: l += 1
+    if p['nomem'] and p['pol'] == 0 and p['cap'] == 1: l = max(l, 2)   # BucketOne: an overloaded 2-bucket table cannot grow (MOMO_CHECK(newCapacity > mCount))
     return l
 
 
@@ -108,6 +109,7 @@ def gen_script(r, p, nops, style):
         if x < 10 * grow_bias // 2:
             if style == 'fail' and p['failinj'] and r.chance(1, 4):
                 ops.append('J %d %d %d' % (k, val(), r.below(max(1, len(live) + 2)))); live.add(k)
+            elif p['nomem'] and r.chance(1, 7): ops.append('Z %d %d' % (k, val())); live.add(k)
             elif r.chance(1, 6): ops.append('A %d %d' % (k, val())); live.add(k)
             else: ops.append('I %d %d' % (k, val())); live.add(k)
         elif x < 10 * grow_bias // 2 + 150:
@@ -116,7 +118,9 @@ def gen_script(r, p, nops, style):
             ops.append('%s %d' % (r.choice(['R', 'P']), k)); live.discard(k)
         elif x < 900:
             y = r.below(100)
-            if y < 12: ops.append('E %d' % k)
+            if y < 6: ops.append('E %d' % k)
+            elif y < 10: ops.append('X %d' % k)
+            elif y < 12: ops.append('Q')
             elif y < 24 and p['tagged']: ops.append('K %d %d' % (k, val()))
             elif y < 34:
                 m = r.range(2, 5); q = r.below(m); ops.append('D %d %d' % (m, q)); live = set(z for z in live if z % m != q)
@@ -135,7 +139,7 @@ def gen_script(r, p, nops, style):
         elif x < 960: ops.append('O')
         elif x < 985: ops.append('N')
         else: ops.append('H')
-    ops += ['N', 'T', 'O', 'U', 'H']
+    ops += ['Q', 'N', 'T', 'O', 'U', 'H']
     return ' '.join(ops)
 
 
@@ -176,6 +180,35 @@ def gen_cases(ctx, scale):
             ops += ['F %d' % k for k in ks[:40]] + ['F %d' % (nn + 5), 'T']
             ops += ['I %d 7' % k for k in rm[:20]] + ['D 2 0', 'T', 'Y', 'T', 'N', 'H']
             out[tu].append(case_line(p, max(min_log_start(p), 2), hm, ' '.join(ops)))
+    # aimed: stored hash parts (LimP4 / Open2N2 hashProbes, BucketOne hash state) must follow the items through Bucket::Remove.
+    # one bucket is given exactly cnt items whose hash codes differ only above the table's log (so the bytes that are stored
+    # differ), each slot in turn is removed, the table is then grown (once / twice, within the same 8-doubling band for log 4)
+    # and every key is looked up again; C 1 resets between the (cnt, slot) combinations.
+    for tu, names in CONFIGS.items():
+        for name in names:
+            p = params(name)
+            if not name.endswith('.p') or p['cap'] >= BIG or p['kmax'] < 2 ** 32: continue
+            for ls in (4, 3, 2):
+                if ls < min_log_start(p): continue
+                for hm in (0, 5):
+                    bc = 2 ** ls; step = bc if hm == 0 else max(1, bc // 32)
+                    ops = []
+                    cap = min(p['cap'], 4)
+                    for cnt in range(1, cap + 1):
+                        for slot in range(cnt):
+                            for grow in ((1,) if (cnt + slot) % 3 else (1, 2)):
+                                base = 5 % bc if hm == 0 else 0
+                                ks = [base + step * (j + 1) * 3 + (step * 64 * j) for j in range(cnt)]
+                                if hm == 5: ks = [k + (5 % bc) // 32 for k in ks]
+                                vv = (lambda k: k % 997) if p['tagged'] else (lambda k: 0)
+                                ops += ['I %d %d' % (k, vv(k)) for k in ks]
+                                ops += ['R %d' % ks[slot]] if (cnt + slot) % 2 else ['P %d' % ks[slot]]
+                                target = calc_capacity(p, ls + (grow - 1) * (2 if p['pol'] == 0 and p['cap'] >= 2 else 1)) + 2
+                                fill = [100000 + 7 * i for i in range(target)]
+                                ops += ['I %d %d' % (k, vv(k)) for k in fill]
+                                ops += ['F %d' % k for k in ks] + ['N', 'T', 'H']
+                                ops += ['R %d' % k for k in ks if k != ks[slot]][:1] + ['F %d' % k for k in ks] + ['C 1']
+                    out[tu].append(case_line(p, ls, hm, ' '.join(ops)))
     return out
 
 
@@ -190,6 +223,7 @@ def leaf_cases(ctx, scale):
     for i in range(600 * scale):
         log = r.range(0, 40); bc = 2 ** log
         hc = r.choice([r.below(2 ** 64), r.below(bc * 4), 2 ** 64 - 1, 0, bc - 1, bc])
+        cases.append('sh %d %d' % (r.below(3), r.choice([r.below(2 ** 64), 2 ** 64 - 1, 0, r.below(2 ** 40), 2 ** 63, (2 ** 57) * r.below(128) + r.below(2 ** 57)])))
         cases.append('idx %d %d %d %d %d' % (r.below(4), hc, log, r.choice([r.below(bc), bc - 1, 0]), r.choice([r.below(bc), 1, bc - 1])))
     return cases
 
@@ -281,18 +315,19 @@ def run(ctx):
         more = gen_cases(ctx, 4)
         for tu in cases: cases[tu] += more[tu]
     leaves = leaf_cases(ctx, scale)
+    TMO = 240 if ctx.quick() else 2400      # a hanging container operation (e.g. an endless probe / iterator loop) is a failure too
     hist = {}
     for tu, cs in cases.items():
         impl_lines = None
         if have_model:
-            mism, (rc1, e1, rc2, e2) = ctx.correspond('scripts-' + tu, cs, [exes[tu]], [ctx.model_exe], timeout=1500)
+            mism, (rc1, e1, rc2, e2) = ctx.correspond('scripts-' + tu, cs, [exes[tu]], [ctx.model_exe], timeout=TMO)
             ctx.tie_obligations.append({'name': 'extracted model == real HashSet/HashMap on %d scripts (%s: %s)' % (len(cs), tu, ' '.join(CONFIGS[tu])), 'ok': not mism and rc1 == 0 and rc2 == 0})
             for (i, c, a, b) in mism[:2]:
                 ctx.violation('model and implementation disagree (configuration %s)' % c.split()[0],
                               {'case': c, 'tu': tu, 'impl': a[:3000], 'model': b[:3000], 'first_diff': first_diff(a, b)}, found_input=True)
         path = os.path.join(ctx.build, 'oracle-%s.cases' % tu)
         open(path, 'w').write('\n'.join(cs) + '\n')
-        rc, lines, err = ctx.run_lines([exes[tu]], path, timeout=1500)
+        rc, lines, err = ctx.run_lines([exes[tu]], path, timeout=TMO)
         if not have_model: ctx.evaluations += len(cs)
         bad = oracle_scan(ctx, cs, lines, tu) if rc == 0 and len(lines) == len(cs) else [(cs[min(len(lines), len(cs) - 1)], err[-400:], 'harness crashed (exit %d) on or after this case' % rc)]
         ctx.stage('oracle-' + tu, not bad, bad[0][2] if bad else '')
@@ -304,7 +339,7 @@ def run(ctx):
         ctx.add_sample(cs[0][:300])
     if have_model:
         mism, _ = ctx.correspond('leaves', leaves, [exes['harness3']], [ctx.model_exe])
-        ctx.tie_obligations.append({'name': 'generated index functions / hand-mirrored CalcCapacity == real functions on %d cases' % len(leaves), 'ok': not mism})
+        ctx.tie_obligations.append({'name': 'generated index + short-hash functions / hand-mirrored CalcCapacity == real functions on %d cases' % len(leaves), 'ok': not mism})
         for (i, c, a, b) in mism[:2]:
             ctx.violation('leaf function of the model and of the implementation disagree', {'case': c, 'tu': 'harness3', 'impl': a, 'model': b}, found_input=True)
     ctx.coverage['input_distribution'] = {'scripts': sum(len(v) for v in cases.values()), 'configurations': sum(len(v) for v in CONFIGS.values()),
@@ -321,7 +356,7 @@ def first_diff(a, b):
 
 
 RULE = ('scripts = aimed random op scripts (insert / add-at-position / find / remove by key, position, predicate / extract+reinsert / '
-        'set value + ResetKey / Reserve / Clear / copy / move / swap / MergeTo / failure-injected relocations) over 46 container '
+        'set value + ResetKey / Reserve / Clear / copy / move-assign / swap / MergeTo / extract into and insert from a holder / insert with refused allocation / failure-injected relocations; + aimed families: long constant-hash chains, stored-hash-part buckets removed slot by slot then grown) over 46 container '
         'configurations (17 bucket kinds x set/map x item size, alignment, category x hash-code-part getter) x 6 hash distributions x '
         'start sizes from the smallest legal table; every script ends with count, full traversal and the internal shape; '
         'distinct = distinct case line; non-trivial = the table grew at least once or reached a multi-generation state')
